@@ -44,7 +44,7 @@ def run_case(case, ctx):
         inputs = [G.render(w, case["fill"], k)
                   for k, w in enumerate(G.l0_inputs(cfg, case["max_len"]))]
     else:
-        inputs = list(G.char_inputs("ab", case["max_len"]))
+        inputs = list(G.char_inputs(case.get("alphabet", "ab"), case["max_len"]))
         inputs += [s[:i] + " " + s[i:] for s in inputs if 2 <= len(s) <= 4 for i in (1, len(s) - 1)]
     ctx.label("lex:" + lexkind)
     ctx.label("table:" + case["table"])
@@ -159,6 +159,19 @@ def strat_l0_big(tier):
     return _case(gen.cfgs(max_nts=4, max_alts=3, max_rhs=4, max_terms=3), "L0")
 
 
+def strat_chain(tier):
+    return _case(gen.nullable_chain_cfgs(), "L0")
+
+
+def strat_l1x(tier):
+    @st.composite
+    def c(draw):
+        g = draw(gen.cfgs(max_nts=3, max_alts=3, max_rhs=3, min_terms=3, max_terms=5, terms_pool=gen.L1X_TERMS))
+        return {"g": g, "table": draw(st.sampled_from(["LALR", "SLR"])), "lex": "L1", "alphabet": "abc",
+                "fill": [""], "max_len": 4}
+    return c()
+
+
 def strat_l1(tier):
     return _case(gen.cfgs(max_nts=3, max_alts=3, max_rhs=3, min_terms=2, max_terms=4,
                           terms_pool=gen.L1_TERMS), "L1")
@@ -192,6 +205,10 @@ SUBCHECKS = [
              examples={"quick": 3200, "thorough": 30000}),
     SubCheck("random-L0-larger", run_case, strategy=strat_l0_big, setup=G.setup_parse_budget,
              examples={"quick": 800, "thorough": 8000}),
+    SubCheck("nullable-chain-family", run_case, strategy=strat_chain, setup=G.setup_parse_budget,
+             examples={"quick": 640, "thorough": 6400}),
+    SubCheck("random-L1-crossing-overlap", run_case, strategy=strat_l1x, setup=G.setup_parse_budget,
+             examples={"quick": 1600, "thorough": 16000}),
     SubCheck("random-L1-overlapping", run_case, strategy=strat_l1, setup=G.setup_parse_budget,
              examples={"quick": 960, "thorough": 10000}),
 ]
